@@ -14,7 +14,12 @@ def main():
     with open(spec_path) as f:
         spec = json.load(f)
     os.makedirs(workdir, exist_ok=True)
-    res = chk.run_shard(spec, workdir)
+    if spec.get("_suite"):  # the repository's own tests as a workload, monitors attached (vmon.suitemon)
+        from vmon import suitemon
+        res = suitemon.run_suite(common.REPO, workdir, only=spec.get("only"))
+        res["_suite"] = True
+    else:
+        res = chk.run_shard(spec, workdir)
     with open(out_path, "w") as f:
         json.dump(res, f, default=str)
     sys.stdout = real_stdout
